@@ -5051,6 +5051,8 @@ class Arc(Curve):
                 self.pry = Point(args[4])
         if len_args > 5:
             self.sweep = args[5]
+            if isinstance(self.sweep, Angle):
+                self.sweep = float(self.sweep)  # An extent: a whole turn is not equal to none.
             return  # The args gave us everything.
         if "start" in kwargs:
             self.start = Point(kwargs["start"])
@@ -5064,6 +5066,8 @@ class Arc(Curve):
             self.pry = Point(kwargs["pry"])
         if "sweep" in kwargs:
             self.sweep = kwargs["sweep"]
+            if isinstance(self.sweep, Angle):
+                self.sweep = float(self.sweep)  # An extent: a whole turn is not equal to none.
         cw = True  # Clockwise default. (sometimes needed)
         if self.start is not None and self.end is not None and self.center is None:
             # Start and end, but no center.
